@@ -413,7 +413,7 @@ func (c *Ctx) toHeapSlice(st *State, v Value, elem types.Type) SliceV {
 		c.heapWrite(st, elem, ref, c.idx(int64(i)), nil, av.Elems[s.COff+i])
 	}
 	c.Assumed["concrete slice copied into symbolic heap (aliasing with its concrete origin lost)"] = true
-	return SliceV{Elem: elem, Heap: true, Ref: ref, Off: c.idx(0), Len: c.idx(int64(s.CLen)), Cap: c.idx(int64(s.CCap - s.COff))}
+	return SliceV{Elem: elem, Heap: true, Ref: ref, Off: c.idx(0), Len: c.idx(int64(s.CLen)), Cap: c.idx(int64(s.CCap - s.COff)), Origin: s.Obj}
 }
 
 func (c *Ctx) allocRef(st *State) *Term {
